@@ -573,6 +573,9 @@ class Engine:
                 except self.builtin_mod.NoneAttr:
                     out.append((s2, self.raise_py(s2, AttributeError, f"'NoneType' object has no attribute '{n.attr}'")))
                 except Exception as e:
+                    if type(e).__name__ == "PropertyFork":
+                        out.extend(self.call(e.func, [], {}, s2))
+                        continue
                     if type(e).__name__ != "MessageAttrFork":
                         raise
                     # opaque message of undetermined class: one path per class that has the field, AttributeError otherwise
